@@ -658,6 +658,8 @@ MATCHERS = {
     'first_positional_stripped': lambda c, fn: len(c['args']) == 1 and not call_parts(c)[0] and strips_first(fn),
     'classmethod_decorated_directly': lambda c, fn: c['style'] == 'method_direct' and c['mkind'] == 'class' and c['mode'] == 'pedantic',
     'receiver_checked_against_varargs': lambda c, fn: bool(call_parts(c)[0]) and has_varpos(fn),
+    'throw_answered_by_generator': lambda c, fn: bool(c.get('gen')) and c.get('on_throw', 'propagate') != 'propagate'
+                                                 and any(o[0] == 'throw' for o in c.get('ops', [])),
     'pedantic_text_in_method_of_pedantic_class': lambda c, fn: c['style'] == 'class_deco' and fn['text']['pedantic'],
 }
 
